@@ -114,6 +114,21 @@ def check_cut(case):
                             drain=case.get('drain', 'iterate')))
         if not out and not port.closed:
             out.append(fail('not-closed', f'port.closed is False after the peer disconnected (drain={case.get("drain")})'))
+        if not out and case.get('disc', 'close') != 'close':
+            # the peer only stopped SENDING (half-close) and is still listening: a port that has ended - and is then
+            # closed explicitly as well - must have let go of the connection, i.e. the peer reads end-of-stream
+            try:
+                port.close()
+                b.settimeout(2.0)
+                rest = b.recv(16)
+                if rest != b'':
+                    out.append(fail('peer-not-disconnected', f'peer received {rest!r} from a port that only receives'))
+            except socket.timeout:
+                out.append(fail('peer-not-disconnected', 'the port reports closed (and close() was called) but its peer, '
+                                                         'still listening after a half-close, never sees a disconnect'))
+            except OSError as exc:
+                if not isinstance(exc, ConnectionResetError):
+                    out.append(fail('raises', f'peer recv after the port closed: {exc!r}', exc=exc_sig(exc)))
     except Exception as exc:  # noqa: BLE001
         out.append(fail('raises', f'{exc!r}', exc=exc_sig(exc)))
     finally:
